@@ -1466,12 +1466,96 @@ def check_ladder(prog, report):
     report.floor('R-ladder', 5)
 
 
+def _inline_read_temps(fn):
+    """Copy of fn in which a local bound once to a call-free read expression
+    (`elem = roots[-1]`) is replaced by that expression where it is used,
+    provided nothing between the binding and the last use can change what
+    the expression reads: no call, no store to a name or attribute it
+    mentions, no subscript store."""
+    import copy
+    from .normalise import _Subst
+    fn = copy.deepcopy(fn)
+    READ = (ast.Name, ast.Attribute, ast.Subscript, ast.Constant, ast.BinOp,
+            ast.UnaryOp, ast.Load, ast.operator, ast.unaryop, ast.Tuple,
+            ast.Slice)
+    for _ in range(12):
+        stores = {}
+        for n in ast.walk(fn):
+            if isinstance(n, ast.Name) and isinstance(n.ctx, ast.Store):
+                stores[n.id] = stores.get(n.id, 0) + 1
+        hit = False
+        for parent in ast.walk(fn):
+            for f in ('body', 'orelse'):
+                blk = getattr(parent, f, None)
+                if not (isinstance(blk, list) and blk and isinstance(
+                        blk[0], ast.stmt)):
+                    continue
+                for k, st in enumerate(blk):
+                    if not (isinstance(st, ast.Assign) and len(
+                            st.targets) == 1 and isinstance(
+                                st.targets[0], ast.Name) and stores.get(
+                                    st.targets[0].id) == 1 and all(
+                                        isinstance(x, READ)
+                                        for x in ast.walk(st.value))
+                            and not isinstance(st.value, ast.Constant)):
+                        continue
+                    name = st.targets[0].id
+                    rest = blk[k + 1:]
+                    loads_rest = sum(
+                        1 for r in rest for x in ast.walk(r)
+                        if isinstance(x, ast.Name) and x.id == name)
+                    loads_all = sum(
+                        1 for x in ast.walk(fn)
+                        if isinstance(x, ast.Name) and x.id == name
+                        and isinstance(x.ctx, ast.Load))
+                    if loads_rest != loads_all or not loads_all:
+                        continue
+                    enames = {x.id for x in ast.walk(st.value)
+                              if isinstance(x, ast.Name)}
+                    eattrs = {x.attr for x in ast.walk(st.value)
+                              if isinstance(x, ast.Attribute)}
+                    safe = True
+                    for r in rest:
+                        for x in ast.walk(r):
+                            if isinstance(x, ast.Call):
+                                safe = False
+                            if isinstance(x, ast.Name) and isinstance(
+                                    x.ctx, (ast.Store, ast.Del)) and \
+                                    x.id in enames:
+                                safe = False
+                            if isinstance(x, ast.Attribute) and isinstance(
+                                    x.ctx, (ast.Store, ast.Del)) and \
+                                    x.attr in eattrs:
+                                safe = False
+                            if isinstance(x, ast.Subscript) and isinstance(
+                                    x.ctx, (ast.Store, ast.Del)):
+                                safe = False
+                    if not safe:
+                        continue
+                    mod = ast.Module(body=rest, type_ignores=[])
+                    _Subst({name: st.value}).visit(mod)
+                    blk[k:] = mod.body
+                    hit = True
+                    break
+                if hit:
+                    break
+            if hit:
+                break
+        if not hit:
+            break
+    return fn
+
+
 def check_initial_wiring(prog, report):
     """Mesh.__init__: vertex index arithmetic, boundary flags, glue."""
     fi = prog.func(M, 'Mesh.__init__')
     fn = fi.node
     src = {text(s).replace(' ', '') for s in ast.walk(fn)
            if isinstance(s, ast.stmt)}
+    # the same statements with read-only temporaries written out
+    fn_t = _inline_read_temps(fn)
+    src |= {text(s).replace(' ', '') for s in ast.walk(fn_t)
+            if isinstance(s, ast.stmt)}
     n = 'len(initial_space_mesh)'
     want_v = {
         'v0=vertices[j*%s+i]' % n, 'v1=vertices[j*%s+i+1]' % n,
@@ -1515,7 +1599,7 @@ def check_initial_wiring(prog, report):
             'roots[-1].edges[1].nbr_edge=roots[j*N_x].edges[3]'}
     # the glue statements sit in the slab loop after the column loop
     placed = False
-    for s in fn.body:
+    for s in list(fn.body) + list(fn_t.body):
         if isinstance(s, ast.For) and text(s.target) == 'j':
             if len(s.body) >= 2 and isinstance(
                     s.body[0], ast.For) and isinstance(
